@@ -353,6 +353,12 @@ def _run_go(ops, exe, timeout_ms, mem_mb, scratch):
             # the harness exits by itself after reporting a timeout / memory overrun: the culprit
             # has an answer already and the remaining ops just need a fresh process
             if rc in (3, 4) and any(("timeout" in r.get(o["id"], {}) or "oom" in r.get(o["id"], {})) for o in todo if o["id"] in done_ids):
+                # a tree that hangs on (nearly) every input would otherwise cost one deadline per op: after a handful of
+                # expired deadlines in one shard the remaining ops are not run (the expired ones are the finding)
+                if sum(1 for x in r.values() if isinstance(x, dict) and x.get("timeout")) >= 6:
+                    for o in rest:
+                        r[o["id"]] = {"id": o["id"], "skipped": "too many ops of this run timed out"}
+                    break
                 todo = rest
                 continue
             # process died: the first unanswered op is the culprit
@@ -374,7 +380,7 @@ def _run_go(ops, exe, timeout_ms, mem_mb, scratch):
     slow = [o for o in ops if isinstance(res.get(o["id"]), dict) and res[o["id"]].get("timeout")]
     if slow and not os.environ.get("VERIF_NO_TIMEOUT_RETRY"):
         env2 = dict(env, BKLGO_TIMEOUT_MS=str(timeout_ms * 4))
-        for o in slow[:40]:
+        for o in slow[:8]:
             rc, out, err = _run_lines([exe], [json.dumps(o, ensure_ascii=False)], env=env2, timeout=3600)
             for line in out.split("\n"):
                 if line.strip():
@@ -439,6 +445,8 @@ def compare_hist(go, model, compare_class=False):
     """Compare per-step results of a hist op. Returns (None|desc, n_unmodelled)."""
     gs, ms = status_of(go), status_of(model)
     if "res" not in (go or {}):
+        if gs[0] == "skipped":
+            return None, 0          # not run: too many ops of the same run had already timed out (those are reported)
         if gs[0] == "bad":
             return f"implementation {gs[1]}", 0
         return f"implementation returned {json.dumps(go)[:200]}", 0
